@@ -31,6 +31,8 @@ def c_tkey(k):
         return f"(TSym {cn(k[1])})"
     if k[0] == "b":
         return f"(TBase {grammars.c_base(k[1])})"
+    if k[0] == "u":
+        return "(TUnion " + clist(c_tkey(x) for x in k[1]) + ")"
     return "(TTuple [])"     # a key the model has no name for (never equal to a modelled key)
 
 
@@ -239,6 +241,7 @@ def variation_family():
         # (no Dependent(...) here: SGE names its genes by str(annotation), which for a lambda contains an address and differs
         #  from one evaluation of the string annotations to the next - see DESIGN section 5, observed outside the properties)
         H([A(), P(0, ["ann", INT, ["intrange", 0, 3]], ["ann", INT, ["intlist", [5, 8]]]), P(0, S(0), S(0)), P(0, ["ann", INT, ["intrange", 1, 1]], S(1))], start=3),
+        H([A(), P(0), P(0, ["union", [S(0), INT]], ["tuple", [BOOL, INT]])]),                            # union and tuple fields
         dict(H([A(), P(0, INT), P(0, S(3), S(0), S(0)), A(), P(3, BOOL)]), considered=[0, 1, 2, 3]),     # C3 is mentioned, its only subclass C4 is not supplied
         dict(H([A(), P(0, BOOL), P(0, S(0), S(3)), A(None, True), P(3, INT)]), considered=[0, 1, 2, 3]),
     ]
